@@ -14,8 +14,16 @@ Oracle (on the real code alone), applied to EVERY evaluation this module perform
 
 Parts: `sweep` (every registered function x every position that admits a raw list / dict / set, nested values,
 both yaql.convertInputData modes, function and method spellings, several lambdas), `pool` (statement / context
-reuse), `ctx` (C17 forests incl. multi / linked contexts: real trace replayed on the Lean model), `conv` (the
-converters with allocation identities: model vs real `is`-sharing), `yaqlized`."""
+reuse; statements parsed by factory-built engines, by `engine.copy(options)` and by `engine(text, options=..)` of an
+engine with the opposite conversion options that ran the text before), `ctx` (C17 forests incl. multi / linked
+contexts: real trace replayed on the Lean model; evaluations through `Statement.evaluate` and through
+`YaqlInterface(ctx, engine)(text, *args, **kwargs)` = `Effects.interfaceCall`), `conv` (the converters with
+allocation identities: model vs real `is`-sharing), `yaqleval`, `provenance` (base engine x derived engine over the
+4 x 4 combinations of convertInputData / convertOutputData, derived by copy / kept copy / per-call options / copy of a
+copy, either one parsing the text first: every evaluation judged by the options of the engine the host USED),
+`entry` (sessions of a host-built YaqlInterface around a plain / multi / linked context: calls with positional and
+keyword parameters, function stubs, `on(..)`, item access, the host's own bindings, interleaved statement
+evaluations; `yaql.create_context(data=..)`; full snapshots and history independence), `yaqlized`."""
 import ast
 import copy
 import datetime
@@ -71,7 +79,12 @@ ASSUMPTIONS = ['aliasing is modelled with allocation identities carried by conta
                'host documents are lists / dicts / sets (tuples, scalars) - the property\'s quantifier; generators, '
                'frozensets and dict views are wrapped lazily by convert_input_data (modelled, '
                'convert_input_lazy_holds_source) and are outside the no-alias claim',
-               'yaql.convertOutputData off hands values out as they are (output_conversion_off_aliases): outside the claim']
+               'yaql.convertOutputData off hands values out as they are (output_conversion_off_aliases): outside the claim; '
+               'the engine that counts is the one the host used for the evaluation (a statement made by engine.copy(o) / '
+               'engine(text, options=o) carries the merged options)',
+               'YaqlInterface.__call__ is modelled as a host step over the context store (Effects.interfaceCall); its '
+               'evaluator runs are step sequences with the NoHostWrite hypothesis like those of Statement.evaluate; the '
+               'function stubs yi.f(..) and item access are covered dynamically only']
 
 
 def generate():
@@ -1559,16 +1572,21 @@ def run_ctx(world, drv, res, rng, tier, hist):
                     steps.append(dict(s='set', f=fi[0], n=a[0], v=val))
                 elif kind == 'reg':
                     steps.append(dict(s='reg', f=fi[0], fn='gen%d' % len(steps), id=1000 + len(steps), x=False))
+            doing = ('YaqlInterface(ctx, engine)(%r%s%s)' % (text, ''.join(', %r' % a for a in icall[0]),
+                                                           ''.join(', %s=%r' % kv for kv in icall[1].items()))
+                     if icall else 'evaluating %r' % text)
             if undisciplined:
-                res.fail('oracle', 'context-changed', 'ctx: evaluating %r wrote to the host\'s contexts: %s' % (text, undisciplined),
-                         dict(part='ctx', ops=ops, text=text, h=h, data=v if with_data else None))
+                res.fail('oracle', 'context-changed', 'ctx: %s on a %s wrote to the host\'s contexts: %s' % (
+                    doing, type(ctx).__name__, undisciplined),
+                         dict(part='ctx', ops=ops, text=text, h=h, data=v if with_data else None, interface_call=icall))
                 return
             # ---- oracle 2: snapshot
             tgt = write_target(ctx)
             d = ctx_diff(cb, ctx_snapshot(ctx_objects(ctx), world.lib_ids), id(tgt) if tgt is not None else None, with_data)
             if d:
-                res.fail('oracle', 'context-changed', 'ctx: evaluating %r on a %s changed the host chain: %s' % (
-                    text, type(ctx).__name__, d), dict(part='ctx', ops=ops, text=text, h=h, data=v if with_data else None))
+                res.fail('oracle', 'context-changed', 'ctx: %s on a %s changed the host chain: %s' % (
+                    doing, type(ctx).__name__, d), dict(part='ctx', ops=ops, text=text, h=h, data=v if with_data else None,
+                                                       interface_call=icall))
                 return
             if icall:
                 evals.append(dict(o='icall', h=h, params=params, fin=999, steps=steps, text=text, cin=cin, args=icall[0], kwargs=icall[1]))
@@ -1982,7 +2000,10 @@ def run(env, res):
     res.rule = ('sweep: one case per (registered function, parameter admitting a raw list/dict/set by its live type check, '
                 'nested value shape, lambda text, function/method spelling, convertInputData mode); distinct = distinct '
                 '(function, parameter, value shape, mode) whose payload was entered; pool / ctx / conv cases by '
-                '(statement, data, context shape) resp. digest of the generated document and options')
+                '(statement, data, context shape) resp. digest of the generated document and options; provenance: one '
+                'history per (base conversion options, derived conversion options, derivation, expression, who parses '
+                'first), non-trivial when the two option sets differ; entry: one case per host operation of a session '
+                '(context class, operation kind, expression / function, engine options)')
     if env.get('replay'):
         rp = json.load(open(env['replay']))
         case = rp.get('case') or rp
@@ -2101,7 +2122,15 @@ LEVEL_TEXT = ('Lean 4 theorems over (1) a model of utils.convert_input_data / co
               'x every position admitting a raw list / dict / set, nested shapes, both input-conversion modes; the '
               'context classes are instrumented (creation serials, every __setitem__ / __delitem__ / register_function / '
               'delete_function) under generated programs of the core fragment: no write to a context that existed before, '
-              'none to a context that already has a child, and the tree of contexts created / names written is the model\'s.')
+              'none to a context that already has a child, and the tree of contexts created / names written is the model\'s.  '
+              'Host entry points: YaqlInterface.__call__ is modelled as a host step (private child, parameters published there, '
+              'evaluation without data, child dropped): interface_call_frame - any number of interface calls leaves every cell '
+              'of the wrapped chain (plain, multi, linked) unchanged, `$` included -, interface_call_reads, '
+              'interface_history_independent (statements evaluated afterwards return what they return on the prepared store), '
+              'interface_probe_reads (a later call reads only its own parameters); the harness runs sessions of host-built '
+              'interfaces around the three context classes, create_context(data=..) and yaql.eval with the same snapshots, and '
+              'engines derived by engine.copy / per-call options from engines with other conversion options, each evaluation '
+              'judged by the options of the engine the host used.')
 LEVEL_NOTE = ('partial: aliasing is modelled with allocation identities, not a heap; the evaluator\'s discipline and locality '
               'are hypotheses of the store-level theorems, discharged for the store-passing evaluator model of the core '
               'fragment (Model/EvalStore.lean: mutable context cells, a child context per function call, lambdas capturing '
